@@ -1,0 +1,42 @@
+//go:build verif
+
+// Contracts for the deductive verifier in /verif (comment-only; compiled only with -tags verif).
+package keeper
+
+//@ family randoms    key types.KeyRandom value types.Random slice 1:=0 prefix global:types.RandomKey
+//@ family rqueue     key types.KeyRandomRequestQueue value types.Request slice 9:=1,1:9=0 prefix types.KeyRandomRequestQueueSubspace,global:types.RandomRequestQueueKey
+//@ family oracleReqs key types.KeyOracleRandomRequest value types.Request
+
+// the id under which a request is queued: sha256(be64(height) || consumer)
+//@ define REQID(r) = types.GenerateRequestID(r)
+
+// A request made at height h with interval n is queued for height h+n under its id (C18).
+//@ func Keeper.RequestRandom
+//@   property C18
+//@   returns request, err
+//@   requires height >= 0 && blockInterval <= 9223372036854775807 - height && time > 0
+//@   modifies rqueue, bal, supply
+//@   ensures queued: err == nil ==> rqueue == set(old(rqueue), height + blockInterval, REQID(request), request)
+//@   ensures made_now: err == nil ==> request.Height == height && request.Consumer == bech(consumer) && request.Oracle == oracle
+//@ end
+
+//@ func Keeper.GetRandom
+//@   property C18
+//@   returns random, err
+//@   ensures read_back: err == nil ==> has(randoms, reqID) && random == get(randoms, reqID)
+//@   ensures unknown:   !has(randoms, reqID) ==> err != nil
+//@ end
+
+// Oracle-seeded requests ask the service module for a seed (foreign keeper, A-MODSEP): no effect on this module's store.
+//@ func Keeper.RequestService
+//@   property C18
+//@   returns id, err
+//@   requires time > 0
+//@   modifies bal, supply
+//@   invariant #1 t: true
+//@ end
+
+// explicit form of the request id for use under quantifiers (same term the code computes)
+//@ define REQIDQ(r) = ufbytes("sha256", ufbytes("bytes_concat", ufbytes("enc<be64,Int>", r.Height mod 18446744073709551616), bytes(r.Consumer)))
+// every queue entry is stored under the id of its own request
+//@ define queueWF = forall q:Int :: forall i:Bytes :: has(rqueue, q, i) ==> i == REQIDQ(get(rqueue, q, i))
